@@ -22,14 +22,16 @@
      Serdes carriers with the answers of the interpreter's decoders (UTF-8, the JSON decoder in use,
      ast.literal_eval) as tables (the Prims / Emitter of harness/props/c14.py).
      Mismatching indexes are computed inside Coq.  Also decided per group inside Coq: the back table is sound
-     (emb v = x for every entry: the hypothesis bl_sound of IoBridge_induced_laws), which cases lie in io_guard /
-     unpack_guard.  Cases outside unpack_guard are the region where Core.unpack2 is wrong (IoBridge_refuted_unpack_*):
-     there Core.iteritems is expected to DISAGREE with the code and the corrected iteritems_fixed must agree; they are
-     generated on purpose and counted as `known_model_gap` (a replay of the refutation on every run).
+     (emb v = x for every entry: the hypothesis bl_sound of IoBridge_induced_laws), which cases lie in io_guard.
+     Every group contains the two inputs that refuted the PREVIOUS definition of Core.unpack2 (scalar members unpacked
+     through itervalues): [(1, 2), UUID(int=5)] and [(1, 2), mappingproxy({0: 1, 1: 0})].  Core.iteritems (whose scalar
+     unpacking is now the runtime field unpack_scalar, here ind_unpack = the Iter model's reading of `k, v = x`) must
+     AGREE with the code on them like on every other value; how often the previous definition (iteritems_pinned) would
+     still disagree is reported as information (`previous_definition_disagrees`).
 
 `table_obligations(run, groups, tag)` (optional, for the properties that run a core correspondence: C01 C03 C05 C06 C07
-C11 C13 C15): the scalar tables coremodel.Mirror filled by calling the implementation (load / values / items / pairlike /
-index) are re-derived from the two models, entry by entry, inside Coq (`core-io-tables:<tag>`): the runtime those
+C11 C13 C15): the scalar tables coremodel.Mirror filled by calling the implementation (load / values / items / unpack /
+pairlike / index) are re-derived from the two models, entry by entry, inside Coq (`core-io-tables:<tag>`): the runtime those
 correspondences evaluate Core.unm / Core.mar on obeys IterLaws / LoadLaw at every entry it used.
 
 Called from the property modules (C18, C14, C05); everything is recorded on the given `run`.
@@ -62,15 +64,15 @@ COQ_TARGETS = ["theories/Model/IoBridge.vo", "theories/Model/IoBridgeEq.vo", "th
                "theories/Props/IoBridge.vo"]
 THEOREMS = [
     "IoBridge_results_faithful", "IoBridge_scalar_shape",
-    "IoBridge_values_commute", "IoBridge_items_commute", "IoBridge_items_fixed_commute", "IoBridge_items_fixed_agrees",
+    "IoBridge_values_commute", "IoBridge_items_commute",
     "IoBridge_load_commute", "IoBridge_load_embS", "IoBridge_readback", "IoBridge_readback_sound",
     "IoBridge_induced_laws",
     "IoBridge_C18_values", "IoBridge_C18_items", "IoBridge_C18_items_pairs", "IoBridge_C18_nondestructive",
     "IoBridge_oneshot_outside",
     "IoBridge_C14_load_carriers", "IoBridge_C14_load_json", "IoBridge_C14_load_plain_text", "IoBridge_C14_load_nontext",
     "IoBridge_unm_text_is_value", "IoBridge_C14_unm_carriers", "IoBridge_C14_unm_json_text",
-    "IoBridge_refuted_unpack_noniterable", "IoBridge_refuted_unpack_mapping", "IoBridge_items_full_refuted",
-    "IoBridge_guard_needed",
+    "IoBridge_pinned_agrees", "IoBridge_pinned_refuted_noniterable", "IoBridge_pinned_refuted_mapping",
+    "IoBridge_pinned_full_refuted", "IoBridge_guard_needed",
 ]
 PROPS = [("Props/IoBridge.v", THEOREMS)]
 
@@ -334,6 +336,10 @@ def later_members(rng, g, objs):
     return out + objs[:3]
 
 
+def WITNESSES():
+    return [(1, 2), uuid.UUID(int=5)], [(1, 2), types.MappingProxyType({0: 1, 1: 0})]
+
+
 def value_pool(rng, g, per_root):
     import coregen
     xs = []
@@ -374,9 +380,8 @@ def value_pool(rng, g, per_root):
     for _ in range(4):
         hashable = [f for f in firsts + laters if _hashable(f)]
         xs.append(rng.choice([set, frozenset])(rng.sample(hashable, rng.choice([1, 2, 3]))))
-    # the refutation witnesses, replayed on every run (outside unpack_guard)
-    xs.append([(1, 2), uuid.UUID(int=5)])
-    xs.append([(1, 2), types.MappingProxyType({0: 1, 1: 0})])
+    # the two inputs that refuted the previous definition of Core.unpack2: part of every group
+    xs += list(WITNESSES())
     # scalars of every leaf class and members of the module's enums
     for key, vals in coregen.LEAF_VALUES.items():
         if key not in ("Any", "list", "dict"):
@@ -565,6 +570,7 @@ class IoGroup(GroupTables):
                 pass
             term = f"({enc_x}, {t_ov}, {t_oi}, {t_ol})"
             self.cases.append({"term": term, "label": label(g, x), "input": repr(x)[:200],
+                               "witness": any(repr(x) == repr(w) for w in WITNESSES()),
                                "itervalues": repr(ov[1])[:200], "iteritems": repr(oi[1])[:200], "load": repr(ol[1])[:200],
                                "module": g.env["module"]})
         self.finish(maxlen)
@@ -585,7 +591,7 @@ class IoGroup(GroupTables):
             f"Definition cases : list io_case :=\n  {cases}.\n"
             f"Definition bad_values := CT.mismatches (ok_values {args}) cases.\n"
             f"Definition bad_items := CT.mismatches (ok_items {args}) cases.\n"
-            f"Definition bad_items_fixed := CT.mismatches (ok_items_fixed {args}) cases.\n"
+            f"Definition bad_items_pinned := CT.mismatches (ok_items_pinned {args}) cases.\n"
             f"Definition bad_load := CT.mismatches (ok_load {args}) cases.\n"
             f"Definition out_guard := CT.mismatches (in_guard P E) cases.\n"
             f"Definition out_unpack := CT.mismatches (in_unpack_guard P E) cases.\n"
@@ -623,12 +629,12 @@ def stream(run: lib.Run, n_groups: int, per_root: int, per_file: int = 6):
             names.append(nm)
         for nm in names:
             text += "".join(f"Eval vm_compute in {nm}.{d}.\n" for d in
-                            ("bad_values", "bad_items", "bad_items_fixed", "bad_load", "out_guard", "out_unpack", "back_ok"))
+                            ("bad_values", "bad_items", "bad_items_pinned", "bad_load", "out_guard", "out_unpack", "back_ok"))
         fname = f"cases_coreio_{fi // per_file}.v"
         files[fname] = text
         order.append((fname, chunk))
     results = run.coq_eval_many(files, timeout=900)
-    mism, gap, outg = [], [], 0
+    mism, gap, outg, witnesses = [], [], 0, 0
     back_bad, failed = [], []
     ncases = 0
     dist, outcomes, outside = collections.Counter(), collections.Counter(), collections.Counter()
@@ -642,12 +648,13 @@ def stream(run: lib.Run, n_groups: int, per_root: int, per_file: int = 6):
             continue
         for gi, ig in enumerate(chunk):
             r = res[NEVAL * gi: NEVAL * (gi + 1)]
-            bv, bi, bf, bl, og, ou = (set(lib.parse_nat_list(s)) for s in r[:6])
+            bv, bi, bp, bl, og, ou = (set(lib.parse_nat_list(s)) for s in r[:6])
             if r[6].strip() != "true":
                 back_bad.append(ig.g.env["module"])
             ncases += 3 * len(ig.cases)
             outg += len(og)
             outside.update(ig.outside)
+            witnesses += sum(1 for c in ig.cases if c.get("witness"))
             for i, c in enumerate(ig.cases):
                 dist[c["label"]] += 1
                 why = []
@@ -655,11 +662,9 @@ def stream(run: lib.Run, n_groups: int, per_root: int, per_file: int = 6):
                     why.append("itervalues")
                 if i in bl:
                     why.append("load")
-                if i in bf:
-                    why.append("iteritems (corrected unpacking)")
-                if i in bi and i not in ou:
+                if i in bi:
                     why.append("iteritems")
-                if i in bi and i in ou:
+                if i in bp:
                     gap.append(c)
                 if why:
                     mism.append(dict(c, layer="core-io", why=", ".join(why), in_io_guard=i not in og))
@@ -668,19 +673,20 @@ def stream(run: lib.Run, n_groups: int, per_root: int, per_file: int = 6):
     run.oblige("evaluate:core-io model shards compile (%d)" % len(files), not failed, ", ".join(failed))
     run.oblige("io:back table sound on every group (emb v = x: hypothesis bl_sound of IoBridge_induced_laws)",
                not back_bad and not failed, "groups: " + ", ".join(back_bad[:5]))
-    run.oblige("io:the refutation witnesses of IoBridge_refuted_unpack_* replay on the code "
-               "(Core.iteritems disagrees outside unpack_guard, the corrected function agrees)",
-               len(gap) >= 2 * len(groups) or bool(failed), f"{len(gap)} gap cases in {len(groups)} groups")
+    run.oblige("io:the two inputs that refuted the previous Core.unpack2 are part of every group "
+               "([(1, 2), UUID(int=5)], [(1, 2), mappingproxy({0: 1, 1: 0})]; Core.iteritems must agree on them)",
+               witnesses >= 2 * len(groups) or bool(failed), f"{witnesses} witness cases in {len(groups)} groups")
     for m in mism:
         m.pop("term", None)
     distinct = len({c["term"] if "term" in c else c["input"] for ig in groups for c in ig.cases})
     run.record_corr("core-io", ncases, mism, 3 * distinct,
                     {"groups": len(groups), "values": ncases // 3, "kinds": dict(dist), "outcomes": dict(outcomes),
-                     "outside_io_guard": outg, "known_model_gap(Core.unpack2 on scalars, outside unpack_guard)": len(gap),
+                     "outside_io_guard": outg, "former_refutation_witnesses": witnesses,
+                     "previous_definition_disagrees (iteritems_pinned: scalar members unpacked through itervalues)": len(gap),
                      "outside (no description in Iter.v's universe)": dict(outside)})
     run.extra_cov.setdefault("io_bridge", {})["core-io"] = {
-        "values": ncases // 3, "mismatches": len(mism), "known_model_gap": len(gap),
-        "first_gap": {k: v for k, v in (gap[0] if gap else {}).items() if k != "term"}}
+        "values": ncases // 3, "mismatches": len(mism), "former_refutation_witnesses": witnesses,
+        "previous_definition_disagrees": len(gap)}
     if groups and groups[0].cases:
         run.samples.append({k: v for k, v in groups[0].cases[0].items() if k != "term"})
     return mism
@@ -692,7 +698,7 @@ def stream(run: lib.Run, n_groups: int, per_root: int, per_file: int = 6):
 
 class TableGroup(GroupTables):
     """The scalar tables a core correspondence filled by calling the implementation (coremodel.Mirror: load_scalar,
-    values_scalar, items_scalar, pairlike_scalar, index) re-derived from the C18 / C14 models: every entry must be what
+    values_scalar, items_scalar, unpack_scalar, pairlike_scalar, index) re-derived from the C18 / C14 models: every entry must be what
     the induced runtime answers.  That is IterLaws / LoadLaw at the entries the correspondence used."""
 
     def __init__(self, g):
@@ -715,7 +721,7 @@ class TableGroup(GroupTables):
                     pass
         self.finish(max(list(t.ix) + [0]))
         self.tables = {}
-        for name, tbl in (("ld", t.ld), ("vs", t.vs), ("its", t.its), ("pl", t.pl)):
+        for name, tbl in (("ld", t.ld), ("vs", t.vs), ("its", t.its), ("ups", getattr(t, "ups", {})), ("pl", t.pl)):
             rows = []
             for k, v in tbl.items():
                 why = self.why_outside(k + v)
@@ -741,17 +747,19 @@ class TableGroup(GroupTables):
             f"Definition t_ld : list (pv * res pv) := {tbl(T['ld'], '(pv * res pv)')}.\n"
             f"Definition t_vs : list (pv * res (list pv)) := {tbl(T['vs'], '(pv * res (list pv))')}.\n"
             f"Definition t_its : list (pv * res (list (pv * pv))) := {tbl(T['its'], '(pv * res (list (pv * pv)))')}.\n"
+            f"Definition t_ups : list (pv * res (pv * pv)) := {tbl(T['ups'], '(pv * res (pv * pv))')}.\n"
             f"Definition t_pl : list (pv * bool) := {tbl(T['pl'], '(pv * bool)')}.\n"
             f"Definition t_ix : list (nat * pv) := {tbl(T['ix'], '(nat * pv)')}.\n"
             "Definition bad_ld := CT.mismatches (fun e : pv * res pv => res_cmp CT.pv_sim (ind_load T (SE.rt_of TABS) (fst e)) (snd e)) t_ld.\n"
             "Definition bad_vs := CT.mismatches (fun e : pv * res (list pv) => res_cmp list_sim (ind_values P E (mk_back BK) (fst e)) (snd e)) t_vs.\n"
             "Definition bad_its := CT.mismatches (fun e : pv * res (list (pv * pv)) => res_cmp pairs_sim (ind_items P E (mk_back BK) (fst e)) (snd e)) t_its.\n"
+            "Definition bad_ups := CT.mismatches (fun e : pv * res (pv * pv) => res_cmp pair_sim (ind_unpack P E (mk_back BK) (fst e)) (snd e)) t_ups.\n"
             "Definition bad_pl := CT.mismatches (fun e : pv * bool => Bool.eqb (ind_pairlike P E (fst e)) (snd e)) t_pl.\n"
             "Definition bad_ix := CT.mismatches (fun e : nat * pv => CT.pv_sim (ind_index (mk_back BK) (fst e)) (snd e)) t_ix.\n"
             f"End {name}.\n")
 
 
-TABLE_EVALS = ("bad_ld", "bad_vs", "bad_its", "bad_pl", "bad_ix", "back_ok")
+TABLE_EVALS = ("bad_ld", "bad_vs", "bad_its", "bad_ups", "bad_pl", "bad_ix", "back_ok")
 
 
 def table_obligations(run: lib.Run, groups, tag: str, per_file: int = 8):
@@ -776,7 +784,7 @@ def table_obligations(run: lib.Run, groups, tag: str, per_file: int = 8):
     results = run.coq_eval_many(files, timeout=900)
     mism, failed, back_bad = [], [], []
     n, per_table, outside = 0, collections.Counter(), collections.Counter()
-    names = {"bad_ld": "ld", "bad_vs": "vs", "bad_its": "its", "bad_pl": "pl", "bad_ix": "ix"}
+    names = {"bad_ld": "ld", "bad_vs": "vs", "bad_its": "its", "bad_ups": "ups", "bad_pl": "pl", "bad_ix": "ix"}
     for fname, chunk in order:
         res = results.get(fname)
         if res is None or len(res) != len(TABLE_EVALS) * len(chunk):
@@ -786,9 +794,9 @@ def table_obligations(run: lib.Run, groups, tag: str, per_file: int = 8):
             r = res[len(TABLE_EVALS) * gi: len(TABLE_EVALS) * (gi + 1)]
             outside.update(tg.outside)
             n += tg.n_entries()
-            if r[5].strip() != "true":
+            if r[-1].strip() != "true":
                 back_bad.append(tg.g.env["module"])
-            for ev, out in zip(TABLE_EVALS[:5], r[:5]):
+            for ev, out in zip(TABLE_EVALS[:-1], r[:-1]):
                 rows = tg.tables[names[ev]]
                 per_table[names[ev]] += len(rows)
                 for i in lib.parse_nat_list(out):
@@ -799,7 +807,7 @@ def table_obligations(run: lib.Run, groups, tag: str, per_file: int = 8):
     run.record_corr(f"core-io-tables:{tag}", n, mism, n,
                     {"groups": len(tgs), "entries_per_table": dict(per_table),
                      "outside (no description in Iter.v's universe)": dict(outside),
-                     "rule": "every entry of the mirror's load / values / items / pairlike / index tables whose atoms have a "
+                     "rule": "every entry of the mirror's load / values / items / unpack / pairlike / index tables whose atoms have a "
                              "description; the entry must equal what Model/Iter.v / Model/Serdes.v compute"})
     return mism
 
